@@ -306,7 +306,44 @@ func (x *Exec) doReturn(st *State, s *ast.ReturnStmt) {
 			st.vars[o] = x.convertTo(st, vals[i], o.Type(), s.Pos())
 		}
 	}
+	if x.ct != nil && len(x.ct.Returns) > 0 {
+		ord := fmt.Sprint(x.returnOrdinal(s))
+		n := 0
+		for _, c := range x.ct.Returns {
+			if c.Case != ord {
+				continue
+			}
+			env := x.specEnv(st)
+			g, facts := env.evalWithFacts(c.Expr)
+			probe := st.clone()
+			for _, f := range facts {
+				probe.assume(f)
+			}
+			x.obligeNamed(probe, fmt.Sprintf("return[%s.%d]", ord, n), "return", g, s.Pos(), c.Text)
+			n++
+		}
+	}
 	x.rets = append(x.rets, st)
+}
+
+// returnOrdinal: position of a return statement among the return statements
+// of the function body in source order (function literals excluded).
+func (x *Exec) returnOrdinal(s *ast.ReturnStmt) int {
+	if x.retOrd == nil {
+		x.retOrd = map[token.Pos]int{}
+		n := 0
+		ast.Inspect(x.fd.Body, func(nd ast.Node) bool {
+			switch t := nd.(type) {
+			case *ast.FuncLit:
+				return false
+			case *ast.ReturnStmt:
+				x.retOrd[t.Pos()] = n
+				n++
+			}
+			return true
+		})
+	}
+	return x.retOrd[s.Pos()]
 }
 
 func (x *Exec) ifStmt(st *State, s *ast.IfStmt) Flow {
